@@ -1127,8 +1127,16 @@ func zbScenarioC19(h *Hist, mons []Monitor) {
 		return o
 	}
 	update := func(fields map[string]string) {
-		submit(&Call{Name: "zcn.update-settings", Meta: map[string]interface{}{"gov": "zcn", "settings": fields, "all_valid_syntax": true},
+		// the shipped configuration has min_stake 0, which the contract's own validation of an updated configuration refuses:
+		// an update only goes through when it also names a valid min_stake
+		if ms, _ := h.Vars["zbMinStakeSet"].(bool); !ms || r.Chance(0.2) {
+			fields["min_stake"] = []string{"1", "0.5", "2"}[r.Intn(3)]
+		}
+		o := submit(&Call{Name: "zcn.update-settings", Meta: map[string]interface{}{"gov": "zcn", "settings": fields, "all_valid_syntax": true},
 			Spec: world.TxnSpec{From: h.W.Owner, To: zcnsc.ADDRESS, Fee: Coin(h.fee(r) % 1000), Type: transaction.TxnTypeSmartContract, Func: "update-global-config", Input: map[string]interface{}{"fields": fields}}})
+		if o.Outcome == "success" {
+			h.Vars["zbMinStakeSet"] = true
+		}
 	}
 	// {min_mint, min_burn} in ZCN
 	up := [][2]string{{"1", "3"}, {"0.5", "2"}, {"2", "5"}, {"1", "1.5"}, {"0.25", "1"}}
